@@ -69,6 +69,8 @@ type driver struct {
 	ownsScratch bool
 
 	selfTests, selfRows int // reference self-test: functions run, table rows
+
+	aborted string // set by the watchdog
 }
 
 func harness(format string, args ...any) {
@@ -115,7 +117,9 @@ func (d *driver) parallel(tasks []task) bool {
 					return
 				}
 
+				w.busy.Store(true)
 				tasks[i](w)
+				w.busy.Store(false)
 			}
 		}(w)
 	}
@@ -538,6 +542,8 @@ func main() {
 
 	os.Unsetenv("PWD") // os.Getwd must report the directory, not the environment
 
+	go d.watchdog()
+
 	// 4. enumeration. The core (quick bounds) runs first in both tiers; the
 	// thorough tier then adds one more level to each space, cheapest first.
 	d.run()
@@ -707,12 +713,30 @@ func (d *driver) finish() int {
 	total := &counters{}
 	agg := aggregator{}
 
-	var resetConservative uint64
+	var (
+		resetConservative, refDiverges uint64
+		divergeEx                      [][2]string
+	)
 
 	for _, w := range d.workers {
 		total.merge(&w.cnt)
 		agg.merge(w.agg)
 		resetConservative += w.resetConservative
+		refDiverges += w.refDiverges
+		divergeEx = append(divergeEx, w.divergeEx...)
+	}
+
+	sort.Slice(divergeEx, func(i, j int) bool {
+		a, b := divergeEx[i], divergeEx[j]
+		if len(a[0])+len(a[1]) != len(b[0])+len(b[1]) {
+			return len(a[0])+len(a[1]) < len(b[0])+len(b[1])
+		}
+
+		return a[0]+"\x00"+a[1] < b[0]+"\x00"+b[1]
+	})
+
+	if len(divergeEx) > 5 {
+		divergeEx = divergeEx[:5]
 	}
 
 	rep, err := kf.NewReporter(d.id, filepath.Join(d.verifDir, "known_findings.txt"), filepath.Join(d.verifDir, "replays"))
@@ -784,7 +808,7 @@ func (d *driver) finish() int {
 	}
 
 	done := d.completed()
-	exhaustive := len(d.skipped) == 0
+	exhaustive := len(d.skipped) == 0 && d.aborted == ""
 
 	for _, l := range d.levels {
 		if !l.Complete {
@@ -799,6 +823,7 @@ func (d *driver) finish() int {
 		"inputs longer than the bound / coverage-guided fuzzing clause not covered: the claim is exhaustive within the stated symbol-length bounds over the 13-symbol alphabet, plus the volume-prefix dictionary",
 		"Linux reference = path/filepath of the host toolchain " + runtime.Version() + " (host is POSIX); Windows reference = verif/ref/winpath, generated from the same toolchain's Windows sources by cmd/genwinpath and accepted only after passing the toolchain's own Windows test tables in this process",
 		"Abs for T=Linux is compared with filepath.Abs after moving the process and the MemFS to the same working directory (3 directories); PWD is unset",
+		"Rel on Windows: pairs on which the toolchain's own Rel does not terminate (decided from its preamble, e.g. Rel(`\\\\h\\s`, `\\\\h\\s\\`)) have no expected value and are skipped; they are counted in coverage.rel_reference_diverges",
 		"FromUnixPath and SplitAbs (no path/filepath counterpart) are only checked for 'never panic'; SplitAbs only on absolute inputs",
 		"PathIterator: exact part sequence on clean absolute paths; on unclean ones only the non-empty parts are compared (the statement does not fix whether empty elements are parts); the ReplacePart flag is checked one way (prefix changed => true); continued iteration only when the volume name is unchanged",
 		"Rel and Abs: error presence is compared, not the message; Match: outcome class true/false/ErrBadPattern/other error",
@@ -828,6 +853,11 @@ func (d *driver) finish() int {
 			"windows_generated_from": winpath.GeneratedFrom, "selftest_functions": d.selfTests, "selftest_table_rows": d.selfRows,
 			"selftest_failures": 0, "sources": winpath.Sources,
 		},
+		"rel_reference_diverges": map[string]any{
+			"skipped_pairs": refDiverges, "examples": divergeEx,
+			"note": "the toolchain's Windows Rel never returns on these inputs (bare UNC volume against its own root); no expected value exists, the pair is skipped for Rel (Join is still compared)",
+		},
+		"aborted":  d.aborted,
 		"budget_s": d.budget,
 		"workers":  len(d.workers),
 	}
